@@ -1,7 +1,7 @@
 import SqlgrepModel.Spec.FloatGrammar
 import SqlgrepModel.Model.DecFloat
 import SqlgrepModel.Lemmas.JsonNumber
-import SqlgrepModel.Lemmas.StrBytes
+import SqlgrepModel.Model.Text
 /-
 `DecFloat.parseF64N` / `parseF64` (the model's `f64::from_str`, executed by the driver for every number text) against
 the grammar of `Spec/FloatGrammar.lean`:
@@ -708,6 +708,20 @@ theorem ascii_of_encode (cs : List Char) (h : ∀ b ∈ Utf8.encode cs, b < 128)
       exact hlt (h b (by rw [hb]; simp))
     · exact ih (fun b hb => h b (List.mem_append_right _ hb)) c hc
 
+/-- the UTF-8 encoding of an ASCII text is its code points (as `Lemmas/StrBytes.encode_ascii`, which lives above the
+evaluator model; restated here to keep this file below it) -/
+theorem encode_ascii' (cs : List Char) (h : ∀ c ∈ cs, c.toNat < 128) : Utf8.encode cs = cs.map Char.toNat := by
+  unfold Utf8.encode
+  induction cs with
+  | nil => rfl
+  | cons c cs ih =>
+    have hc := h c List.mem_cons_self
+    have : Utf8.encodeChar c = [c.toNat] := by
+      unfold Utf8.encodeChar
+      simp only [show c.toNat < 0x80 from hc, if_true]
+    simp only [List.flatMap_cons, List.map_cons, this, List.singleton_append]
+    rw [ih (fun c' hc' => h c' (List.mem_cons_of_mem _ hc'))]
+
 theorem map_ofNat_toNat (cs : List Char) : cs.map (Char.ofNat ∘ Char.toNat) = cs := by
   induction cs with
   | nil => rfl
@@ -730,11 +744,11 @@ theorem parseF64N_utf8_iff (cs : List Char) (b : Nat) :
       have := FloatD.ascii hv (Char.ofNat c) (List.mem_map.2 ⟨c, hc, rfl⟩)
       rwa [toNat_ofNat_of_lt (hbytes c hc)] at this
     have hcs := ascii_of_encode cs hasc
-    rw [Sqlgrep.encode_ascii cs hcs, List.map_map] at hv
+    rw [encode_ascii' cs hcs, List.map_map] at hv
     rw [map_ofNat_toNat] at hv
     exact ⟨v, hv, hb⟩
   · rintro ⟨v, hv, rfl⟩
-    rw [Sqlgrep.encode_ascii cs (FloatD.ascii hv)]
+    rw [encode_ascii' cs (FloatD.ascii hv)]
     exact parseF64N_complete hv
 
 end Sqlgrep.DecFloat
